@@ -188,6 +188,38 @@ func rewriteFile(name string, src []byte, rewriteGo, rewriteSync, rewriteOS bool
 			st["atomic_imports"]++
 		}
 	}
+	if rewriteOS {
+		// bufio.NewWriter(x) / bufio.NewWriterSize(x, n) -> bufio.NewWriter(os.HookWriter(x)): the writes a buffered
+		// writer issues to a file become crash points (see vos.HookWriter)
+		hasOS, hasBufio := false, false
+		for _, im := range f.Imports {
+			p, _ := strconv.Unquote(im.Path.Value)
+			if p == vosPath && im.Name != nil && im.Name.Name == "os" {
+				hasOS = true
+			}
+			if p == "bufio" && im.Name == nil {
+				hasBufio = true
+			}
+		}
+		if hasOS && hasBufio {
+			ast.Inspect(f, func(n ast.Node) bool {
+				call, ok := n.(*ast.CallExpr)
+				if !ok || len(call.Args) == 0 {
+					return true
+				}
+				sel, ok := call.Fun.(*ast.SelectorExpr)
+				if !ok {
+					return true
+				}
+				if id, ok := sel.X.(*ast.Ident); !ok || id.Name != "bufio" || (sel.Sel.Name != "NewWriter" && sel.Sel.Name != "NewWriterSize") {
+					return true
+				}
+				call.Args[0] = &ast.CallExpr{Fun: &ast.SelectorExpr{X: ast.NewIdent("os"), Sel: ast.NewIdent("HookWriter")}, Args: []ast.Expr{call.Args[0]}}
+				st["bufio_writers_hooked"]++
+				return true
+			})
+		}
+	}
 	nGo := 0
 	if rewriteGo {
 		var fix func(list []ast.Stmt)
